@@ -2137,13 +2137,18 @@ func (p *printer) overloadFuncDecl(d *ast.OverloadFuncDecl) {
 		p.print(token.PERIOD)
 	}
 	p.expr(d.Name)
-	p.print(blank, token.ASSIGN, blank, token.LPAREN, newline)
-	for _, fn := range d.Funcs {
-		p.print(indent)
-		p.expr1(fn, token.LowestPrec, 1)
-		p.print(unindent, newline)
+	p.print(blank, d.Assign, token.ASSIGN, blank, d.Lparen, token.LPAREN)
+	if len(d.Funcs) > 0 {
+		p.print(indent, formfeed)
+		for i, fn := range d.Funcs {
+			if i > 0 {
+				p.linebreak(p.lineFor(fn.Pos()), 1, ignore, false)
+			}
+			p.expr1(fn, token.LowestPrec, 1)
+		}
+		p.print(unindent, formfeed)
 	}
-	p.print(token.RPAREN)
+	p.print(d.Rparen, token.RPAREN)
 }
 
 func (p *printer) decl(decl ast.Decl) {
@@ -2169,7 +2174,7 @@ func declToken(decl ast.Decl) (tok token.Token) {
 	switch d := decl.(type) {
 	case *ast.GenDecl:
 		tok = d.Tok
-	case *ast.FuncDecl:
+	case *ast.FuncDecl, *ast.OverloadFuncDecl:
 		tok = token.FUNC
 	}
 	return
